@@ -72,6 +72,15 @@ func vCheckTable(c *Client, cat vCat, name, id string) {
 	}
 	nd.Assert(len(d.Table.KeySchema) == wantKS && aws.ToString(d.Table.KeySchema[0].AttributeName) == "p", id+"-describe-key-schema")
 	nd.Assert(len(d.Table.GlobalSecondaryIndexes) == len(m.indexes), id+"-describe-index-set")
+	for want := range m.indexes {
+		found := 0
+		for _, g := range d.Table.GlobalSecondaryIndexes {
+			if aws.ToString(g.IndexName) == want {
+				found++
+			}
+		}
+		nd.Assert(found == 1, id+"-describe-lists-every-index-once")
+	}
 	for _, g := range d.Table.GlobalSecondaryIndexes {
 		nd.Assert(m.indexes[aws.ToString(g.IndexName)], id+"-describe-index-names")
 		nd.Assert(int(aws.ToInt64(g.ItemCount)) == len(m.keys), id+"-describe-index-item-count") // every item carries g
